@@ -15,7 +15,7 @@ RULE = ("Every PDAG with acyclic directed part on p<=4 nodes x every node subset
         "original entries, skeleton symmetric 0/1, edge lists as sets with multiplicity one, edge_weights == {(i,j): W[i,j]} "
         "over the non-zero entries, vstructures == unshielded colliders (i,c,j) with i<j, moral_graph == skeleton + married "
         "parents (DAG inputs), induced_subgraph, is_clique, is_complete and degrees from the skeleton. Non-trivial = a "
-        "collider whose parents are joined by an (un)directed edge, or a weighted input, or S neither empty nor full.")
+        "collider whose parents are joined by an (un)directed edge, or a weighted input, or S neither empty nor full. Also: relabelling into 9..70 labels, further dtypes, tiny weights, colliders with 30..40 parents, complete graphs minus a few edges on 300..600 nodes.")
 ASSUMPTIONS = [
     "weighted matrices with undirected edges are outside the stated domain (A + A.T may cancel) and are not generated",
     "moral_graph is checked on DAG inputs (its documented domain)",
